@@ -68,7 +68,7 @@ def run(ctx):
                 # the same local must be handed to computeEntrySet as out-parameter #2 (statesToEnter)
                 ces = en.calls(ALG + "computeEntrySet")
                 passed = any(local_of(x["a"][2], NO_T) == bl for x in ces) if bl is not None else False
-                ok = bool(srt) and cmp_name == "state_entry_order" and order == (0, 1) and passed and "iterator" in names
+                ok = bool(srt) and is_entry_order(cmp_name, order) and passed and "iterator" in names
                 detail = "iterates %s via %s; comparator %s%s; set passed to computeEntrySet arg#2: %s" % (
                     describe(base), ".".join(names), cmp_name, order, passed)
             ctx.ob("R01.2", site_key(en, "configuration.add"), ok, line_of(c), detail)
@@ -233,10 +233,10 @@ def run(ctx):
                 if call is not None and call.get("m") == "every":
                     base, chain = method_chain(fn, call["r"])
                     a0 = [m for m, _ in chain] == ["tail"] and param_index(fn, base) == 1
-            lp = hirq.loop_var_of(fn, c["a"][1])
+            src = hirq.element_source(fn, c["a"][1])   # `for anc in <src>` or `<src>.find(|anc| ..)`
             a1 = False
-            if lp is not None:
-                base, chain = method_chain(fn, lp["iter"])
+            if src is not None:
+                base, chain = method_chain(fn, src)
                 names = [m for m, _ in chain]
                 gpa = [n for m, n in chain if m == "getProperAncestors"]
                 flt = [n for m, n in chain if m == "filter_by"]
